@@ -5,10 +5,10 @@ TRUSTED_BASE = [
     "Lean compiler/runtime executing the model and spec definitions inside pgvdriver",
     "the Lean Spec.* definitions as a faithful reading of the property text (DESIGN.md §6)",
     "correspondence check (differential testing, Go harness in /verif/harness): supports the model=code tie on generated inputs only",
-    "hand transcription of Go stdlib behaviour used by the model (UTF-8 decoding, strings.*, strconv.*, reflect as listed in DESIGN.md §5)",
+    "hand transcription of Go stdlib behaviour used by the model (UTF-8 decoding, strings.*, strconv.*, reflect, url.QueryUnescape, time.Parse / Format for the numeric layout elements, as listed in DESIGN.md §5)",
 ]
 
-WALK_ASSUME = ['reflect (Kind, IsZero, Len, Index, MapRange, pointer stripping, Type().String()/Name()) transcribed on the GoVal tree; values are trees (no cycles)', 'Go map iteration order is unobservable: the driver accepts any order of map entries and of group clauses', 'residual stdlib calls (regexp on user patterns, net.ParseIP, json.Valid, os.Stat, time.Parse, error texts of Atoi/QueryUnescape) are answered by the harness from the stdlib', 'fmt %v of composite values and reflect.DeepEqual on composites are residuals answered by the harness from the stdlib, keyed by a fingerprint of the value; when the wire format cannot name the value uniquely (pointer identity) the case is out of scope (unmodelled), never judged']
+WALK_ASSUME = ['reflect (Kind, IsZero, Len, Index, MapRange, pointer stripping, Type().String()/Name()) transcribed on the GoVal tree; values are trees (no cycles)', 'Go map iteration order is unobservable: the driver accepts any order of map entries and of group clauses', 'residual stdlib calls (regexp on user patterns, net.ParseIP, json.Valid, os.Stat, time.Parse for layouts with an element other than 2006 01 02 15 04 05, error texts of Atoi/QueryUnescape) are answered by the harness from the stdlib', 'fmt %v of composite values and reflect.DeepEqual on composites are residuals answered by the harness from the stdlib, keyed by a fingerprint of the value; when the wire format cannot name the value uniquely (pointer identity) the case is out of scope (unmodelled), never judged']
 
 CHECKS = {
 
